@@ -4,12 +4,12 @@ package main
 
 import (
 	"fmt"
-	"os"
 	"go/ast"
 	"go/constant"
 	"go/token"
 	"go/types"
 	"math/big"
+	"os"
 	"strings"
 )
 
@@ -27,16 +27,16 @@ type RangeRef struct {
 
 type SpecEnv struct {
 	resultDefined map[int]bool // results assigned by `resultK == ...` clauses (call-site evaluation)
-	e       *Engine
-	st      *State
-	old     *State
-	vars    map[string]Value
-	results []Value
-	resName []string
-	pkg     *types.Package
-	inOld   bool
-	lemma   bool
-	fnName  string
+	e             *Engine
+	st            *State
+	old           *State
+	vars          map[string]Value
+	results       []Value
+	resName       []string
+	pkg           *types.Package
+	inOld         bool
+	lemma         bool
+	fnName        string
 }
 
 func (env *SpecEnv) fail(format string, args ...interface{}) {
@@ -54,14 +54,14 @@ var specConsts = map[string]*big.Int{
 	"P": bigP, "N": bigN, "W": bigW, "R": bigR,
 	"W2": new(big.Int).Lsh(big1, 128), "W3": new(big.Int).Lsh(big1, 192), "W4": bigR, "W5": new(big.Int).Lsh(big1, 320),
 	"R2P": new(big.Int).Mod(new(big.Int).Mul(bigR, bigR), bigP), "R2N": new(big.Int).Mod(new(big.Int).Mul(bigR, bigR), bigN),
-	"HALFN": new(big.Int).Rsh(bigN, 1),
+	"HALFN":  new(big.Int).Rsh(bigN, 1),
 	"LAMBDA": hexBig("5363ad4cc05c30e0a5261c028812645a122e22ea20816678df02967c1b23bd72"),
 	"BETA":   hexBig("7ae96a2b657c07106e64479eac3434e99cf0497512f58995c1396c28719501ee"),
 	"GLV_A1": hexBig("3086d221a7d46bcde86c90e49284eb15"), "GLV_NB1": hexBig("e4437ed6010e88286f547fa90abfe4c3"),
 	"GLV_A2": hexBig("114ca50f7a8e2f3f657c1108d9d44cfd8"), "GLV_B2": hexBig("3086d221a7d46bcde86c90e49284eb15"),
 	"GLV_G1": hexBig("3086d221a7d46bcde86c90e49284eb153daa8a1471e8ca7fe893209a45dbb031"),
 	"GLV_G2": hexBig("e4437ed6010e88286f547fa90abfe4c4221208ac9df506c61571b4ae8ac47f71"),
-	"T128": new(big.Int).Lsh(big1, 128), "T383": new(big.Int).Lsh(big1, 383), "T384": new(big.Int).Lsh(big1, 384),
+	"T128":   new(big.Int).Lsh(big1, 128), "T383": new(big.Int).Lsh(big1, 383), "T384": new(big.Int).Lsh(big1, 384),
 	"GX": hexBig("79be667ef9dcbbac55a06295ce870b07029bfcdb2dce28d959f2815b16f81798"),
 	"GY": hexBig("483ada7726a3c4655da4fbfc0e1108a8fd17b448a68554199c47d08ffb10d4b8"),
 }
